@@ -19,7 +19,10 @@ SORB = {
     "Sr": (1e-3, 2), "Ba": (1e-3, 0.5), "Mn": (1e-3, 0.5), "S(6)": (0.05, 20), "P": (1e-4, 0.3), "F": (1e-3, 1),
     "B": (1e-3, 1), "Si": (1e-2, 1.5),
 }
-ANIONS = {"S(6)", "P", "F", "B", "Si"}
+# redox elements entered as totals: the sorbing species (H3AsO3, SeO3-2, …) is a non-primary valence state that is rewritten
+# through e- in reaction steps (only in the databases whose Hfo set has them)
+REDOX = {"As": (1e-4, 0.05), "Se": (1e-4, 0.05)}
+ANIONS = {"S(6)", "P", "F", "B", "Si", "As", "Se"}
 BG = [("Na", "Cl"), ("Na", "N(5)"), ("K", "Cl")]
 
 
@@ -109,10 +112,10 @@ def cd_defs(rng, cations, anions):
             species.append(f"(Goe_uniOH)2{c}+")
     for a in anions:
         if a == "S(6)":
-            sp.append(f" Goe_uniOH-0.5 + H+ + SO4-2 = Goe_uniOSO3-1.5 + H2O\n  -cd_music 0.5 -1.5 0 0 0\n  log_k {rng.uniform(8, 10):.2f}")
+            sp.append(f" Goe_uniOH-0.5 + H+ + SO4-2 = Goe_uniOSO3-1.5 + H2O\n  -cd_music 1 0 0 {rng.choice([0.18, 0.25, 0.4])} -2\n  log_k {rng.uniform(8, 10):.2f}")
             species.append("Goe_uniOSO3-1.5")
         elif a == "P":
-            sp.append(f" 2Goe_uniOH-0.5 + 2H+ + PO4-3 = (Goe_uniO)2PO2-2 + 2H2O\n  -cd_music 0.46 -1.46 0 0 0\n  log_k {rng.uniform(27, 31):.2f}")
+            sp.append(f" 2Goe_uniOH-0.5 + 2H+ + PO4-3 = (Goe_uniO)2PO2-2 + 2H2O\n  -cd_music 2 0 0 {rng.choice([0.3, 0.46, 0.6])} -3\n  log_k {rng.uniform(27, 31):.2f}")
             species.append("(Goe_uniO)2PO2-2")
         elif a == "F":
             sp.append(f" Goe_uniOH-0.5 + H+ + F- = Goe_uniF-0.5 + H2O\n  -cd_music 0.4 -0.4 0 0 0\n  log_k {rng.uniform(8, 10):.2f}")
@@ -135,7 +138,12 @@ def gen_edl(rng, kind):
     if r < 0.37:
         return {"type": "no_edl"}
     if r < 0.50:
-        return {"type": "ccm", "cap": round(loguni(rng, 0.2, 5.0), 3)}
+        e = {"type": "ccm", "cap": round(loguni(rng, 0.2, 5.0), 3)}
+        if rng.random() < 0.25:      # constant capacitance with an explicit diffuse layer
+            e["dl"] = rng.choice(["donnan", "diffuse_layer"])
+            if rng.random() < 0.5:
+                e["thickness"] = loguni(rng, 2e-9, 5e-8)
+        return e
     e = {"type": "ddl"}
     r = rng.random()
     if r < 0.35:
@@ -173,6 +181,10 @@ def gen_case(rng, idx):
         pool = [p for p in pool if p not in ("B",)]
     ions = rng.sample(pool, nion)
     spec["ions"] = [[e, loguni(rng, *SORB[e])] for e in ions]
+    if kind == "hfo" and db in ("wateq4f.dat", "minteq.v4.dat") and rng.random() < 0.5:
+        for e in rng.sample(list(REDOX), rng.choice([1, 1, 2])):
+            spec["ions"].append([e, loguni(rng, *REDOX[e])])
+        spec["pe"] = round(rng.uniform(-2.0, 11.0), 2)
     spec["edl"] = gen_edl(rng, kind)
     spec["equilibrate"] = rng.random() < 0.8
     spec["density_units"] = rng.random() < 0.15
@@ -217,10 +229,17 @@ def gen_case(rng, idx):
                        "area_per_mol": round(loguni(rng, 1e3, 1e5), 0), "times": [round(loguni(rng, 10, 1e4), 1) for _ in range(rng.choice([1, 2]))]}
     # reaction stages after the initial surface calculation
     stages = []
-    for _ in range(rng.choice([0, 1, 1, 2])):
-        reag = rng.choice(["NaOH", "HCl", "NaCl", "CaCl2", "ZnCl2", "Na2SO4"])
-        tot = loguni(rng, 1e-6, 3e-3)
-        stages.append({"reagent": reag, "moles": tot, "steps": rng.choice([1, 1, 2, 3])})
+    for _ in range(rng.choice([0, 1, 1, 2, 3, 4])):
+        r2 = rng.random()
+        if r2 < 0.7:
+            reag = rng.choice(["NaOH", "HCl", "NaCl", "CaCl2", "ZnCl2", "Na2SO4"])
+            tot = loguni(rng, 1e-6, 3e-3)
+            stages.append({"reagent": reag, "moles": tot, "steps": rng.choice([1, 1, 2, 3])})
+        elif r2 < 0.85:
+            stages.append({"temperature": round(rng.uniform(5, 70), 1)})
+        elif kind in ("hfo", "user", "cd"):
+            # redefinition: SURFACE 1 is defined again (other amount of sites, re-equilibrated), replacing the stored one
+            stages.append({"redefine": round(loguni(rng, 0.2, 5.0), 3)})
     if not stages and not spec["equilibrate"]:
         stages.append({"reagent": "NaCl", "moles": 1e-6, "steps": 1})
     spec["stages"] = stages
@@ -233,43 +252,12 @@ def site_elements(spec):
     return [s[0] for sf in spec["surfaces"] for s in sf["sites"]]
 
 
-def render(spec, dbspecies=None):
-    """input text of a spec.  `dbspecies`: names of the database's surface species (for the MOL/LA read-outs of Hfo)"""
+def surface_block(spec, factor, equilibrate):
+    """the SURFACE 1 block; `factor` scales the number of sites (used by the redefinition stages)"""
     L = []
-    if spec.get("defs"):
-        L.append(spec["defs"].rstrip("\n"))
-    cat, an = spec["bg"]
-    conc = spec["I"] * 1000.0
-    L.append("SOLUTION 1")
-    L.append(f" temp {spec['temp']}")
-    L.append(f" pH {spec['pH']}")
-    L.append(" units mmol/kgw")
-    # charge balance on the background ion that has to be added for this pH
-    zz = {"S(6)": -2.0, "P": -1.5, "F": -1.0, "B": 0.0, "Si": 0.0}
-    net = sum(zz.get(e, 2.0) * c for e, c in spec["ions"]) + 1000.0 * (10 ** (-spec["pH"]) - 10 ** (spec["pH"] - 14.0))
-    if net > 0:
-        L.append(f" {cat} {fmt(conc)}")
-        L.append(f" {an} {fmt(conc)} charge")
-    else:
-        L.append(f" {cat} {fmt(conc)} charge")
-        L.append(f" {an} {fmt(conc)}")
-    for e, c in spec["ions"]:
-        if e in (cat, an):
-            continue
-        L.append(f" {e} {fmt(c)}")
-    if spec["kind"] == "phase":
-        p = spec["phase"]
-        L.append("EQUILIBRIUM_PHASES 1")
-        L.append(f" {p['name']} 0 {fmt(p['moles'])}")
-    if spec["kind"] == "kin":
-        k = spec["kin"]
-        L.append("RATES\n Sorbent\n -start\n 10 rate = parm(1)\n 20 save rate * time\n -end")
-        L.append("KINETICS 1")
-        L.append(f" Sorbent\n  -formula Fe(OH)3 1\n  -m0 {fmt(k['m0'])}\n  -parms {fmt(k['rate'])}")
-        L.append("  -steps " + " ".join(fmt(t) for t in k["times"]))
     e = spec["edl"]
     L.append("SURFACE 1")
-    if spec["equilibrate"]:
+    if equilibrate:
         L.append(" -equilibrate 1")
     if spec.get("density_units") and spec["kind"] not in ("phase", "kin"):
         L.append(" -sites_units density")
@@ -283,7 +271,7 @@ def render(spec, dbspecies=None):
                 k = spec["kin"]
                 line = f" {nm} Sorbent kinetic_reactant {fmt(k['prop'][min(j, 1)])}" + (f" {fmt(k['area_per_mol'])}" if first else "")
             else:
-                val = n
+                val = n * factor
                 if spec.get("density_units"):
                     val = n * 6.02252e23 / (1e18 * sf["area"] * sf["mass"])
                 mname = nm if spec["kind"] != "cd" else {"Goe_uni": "Goe_uniOH-0.5", "Goe_tri": "Goe_triO-0.5"}[nm]
@@ -306,6 +294,47 @@ def render(spec, dbspecies=None):
             L.append(" -donnan" + (f" {fmt(e['thickness'])}" if "thickness" in e else ""))
     if e.get("only_counter_ions"):
         L.append(" -only_counter_ions")
+    return L
+
+
+def render(spec, dbspecies=None):
+    """input text of a spec.  `dbspecies`: names of the database's surface species (for the MOL/LA read-outs of Hfo)"""
+    L = []
+    if spec.get("defs"):
+        L.append(spec["defs"].rstrip("\n"))
+    cat, an = spec["bg"]
+    conc = spec["I"] * 1000.0
+    L.append("SOLUTION 1")
+    L.append(f" temp {spec['temp']}")
+    L.append(f" pH {spec['pH']}")
+    if "pe" in spec:
+        L.append(f" pe {spec['pe']}")
+    L.append(" units mmol/kgw")
+    # charge balance on the background ion that has to be added for this pH
+    zz = {"S(6)": -2.0, "P": -1.5, "F": -1.0, "B": 0.0, "Si": 0.0, "As": -1.0, "Se": -1.5}
+    net = sum(zz.get(e, 2.0) * c for e, c in spec["ions"]) + 1000.0 * (10 ** (-spec["pH"]) - 10 ** (spec["pH"] - 14.0))
+    if net > 0:
+        L.append(f" {cat} {fmt(conc)}")
+        L.append(f" {an} {fmt(conc)} charge")
+    else:
+        L.append(f" {cat} {fmt(conc)} charge")
+        L.append(f" {an} {fmt(conc)}")
+    for e, c in spec["ions"]:
+        if e in (cat, an):
+            continue
+        L.append(f" {e} {fmt(c)}")
+    if spec["kind"] == "phase":
+        p = spec["phase"]
+        L.append("EQUILIBRIUM_PHASES 1")
+        L.append(f" {p['name']} 0 {fmt(p['moles'])}")
+    if spec["kind"] == "kin":
+        k = spec["kin"]
+        L.append("RATES\n Sorbent\n -start\n 10 rate = parm(1)\n 20 save rate * time\n -end")
+        L.append("KINETICS 1")
+        L.append(f" Sorbent\n  -formula Fe(OH)3 1\n  -m0 {fmt(k['m0'])}\n  -parms {fmt(k['rate'])}")
+        L.append("  -steps " + " ".join(fmt(t) for t in k["times"]))
+    e = spec["edl"]
+    L += surface_block(spec, 1.0, spec["equilibrate"])
     # read-outs
     heads, stmts = ["cb", "mu", "epsr", "tk"], ['20 PUNCH MU, EPS_R, TK']
     ln = 30
@@ -347,12 +376,21 @@ def render(spec, dbspecies=None):
             L.append("SAVE equilibrium_phases 1")
     L.append("END")
     for st in spec["stages"]:
+        if "redefine" in st:
+            L += surface_block(spec, st["redefine"], True)
+            if spec.get("save"):
+                L.append("SAVE surface 1")
+            L.append("END")
+            continue
         L.append("USE solution 1\nUSE surface 1")
         if spec["kind"] == "phase":
             L.append("USE equilibrium_phases 1")
         if spec["kind"] == "kin":
             L.append("USE kinetics 1")
-        L.append(f"REACTION 1\n {st['reagent']} 1\n {fmt(st['moles'])} moles in {st['steps']} steps")
+        if "temperature" in st:
+            L.append(f"REACTION_TEMPERATURE 1\n {st['temperature']}")
+        else:
+            L.append(f"REACTION 1\n {st['reagent']} 1\n {fmt(st['moles'])} moles in {st['steps']} steps")
         if spec.get("save"):
             L.append("SAVE solution 1\nSAVE surface 1")
             if spec["kind"] == "phase":
